@@ -20,6 +20,11 @@ func init() { core.Register(c20{}) }
 
 func (c20) ID() string { return "C20" }
 
+// EvalFeatures names the counters of judged executions.
+func (c20) EvalFeatures() []string {
+	return []string{"exhaustive-sequences", "inputs-tokenised", "stack-ops"}
+}
+
 const c20PrefixBits = 8
 
 func c20Depth(tier string) int {
